@@ -844,3 +844,23 @@ func (s *ghostState) hasCaptured(x *ssa.Phi) bool {
 	}
 	return false
 }
+
+// ghostForall: "if the per-element event fails for ANY element, fn answers `bad`" — for every number of elements and
+// whatever form the loop and the verdict take. Returns (held, undecided reason, description).
+func (p *Prog) ghostForall(fn *ssa.Function, event func(ssa.Instruction) (ssa.Value, bool, bool), bad tri) (bool, string, string) {
+	spec := &ghostSpec{Event: event, ResultIdx: boolResultIndex(fn), BadResult: bad, MaxDepth: 4}
+	if spec.ResultIdx < 0 {
+		return false, "the function has no single boolean result", ""
+	}
+	run := p.ghostVerdict(fn, spec)
+	if run.Undec != "" {
+		return false, run.Undec, ""
+	}
+	if run.Events == 0 {
+		return false, "the per-element test was not found in the function or its helpers", ""
+	}
+	if len(run.Finds) > 0 {
+		return false, "", ghostWhy(p, run)
+	}
+	return true, "", fmt.Sprintf("%d abstract states, every failing element forces the answer %s", run.States, bad)
+}
